@@ -53,6 +53,7 @@ CROSSINC = doc("VerifH_CrossProjectInclude", {"K": 1}, {"K": 2}, stubsets=["loca
 MARSHAL = {"pkg": "catalog", "fn": "VerifH_MarshalStable", "quick": {"CROSS": 1}, "thorough": {"CROSS": 1},
            "stubs": {"encoding/json.Marshal": "verifStubJSONMarshal"}, "replay_repeat": 3}
 ATTRIB = doc("VerifH_DiagnosticAttribution", {"K": 3}, {"K": 4}, full_schema_lib=True)
+ANNOT_IN = {"pkg": "catalog", "fn": "VerifH_Annotation", "quick": {"N": 3, "INTERIOR": 1}, "thorough": {"N": 4, "INTERIOR": 1}}
 MSHAPE = {"pkg": "catalog", "fn": "VerifH_MarshalShape", "quick": {}, "thorough": {}, "instances": [{"T": t} for t in range(4)],
           "instances_thorough": [{"T": 4}], "stubs": {"encoding/json.Marshal": "verifStubJSONMarshalLogged"}}
 FIXTURES = {"pkg": "core", "fn": "VerifH_Fixture", "quick": {}, "thorough": {}, "full_schema_lib": True,
@@ -124,7 +125,7 @@ CHECKS = {
  },
  "C04": {
   "title": "Catalog faithfulness",
-  "harnesses": [STRUCT, STRUCT_TAGS, STRUCT_PARENS, STRUCT_RESP, STRUCT_SCHEMA, STRUCT_RPC],
+  "harnesses": [STRUCT, STRUCT_TAGS, STRUCT_PARENS, STRUCT_RESP, STRUCT_SCHEMA, STRUCT_RPC, ANNOT_IN],
   "assumptions": DOC_ASSUME + ["reference model (refCatalogSig): reads info, servers, types, tags (declared first, then automatic per first path segment), and interactions with id / method / path / annotation / description / tags / request / responses off the template sequence using the C06 reference resolver for nesting",
                                 "schema-bearing menus (MENU 3, 4, 5) run the real schema library: object TYPE, ENUM (value tree), responses that are a reference or an array of references (usedUserTypes), object Request, response Headers, JSON-RPC Method with Params and Result; the reference gives the expected schema tree (key, token type, type, scalar) per template"],
   "not_decided": ["documents outside the template menus or longer than K lines", "schema bodies other than the templates' (the notation regex, nested objects, rules / annotations inside bodies, Query)", "the JSON rendering", "documents with MACRO / PASTE (compared relationally by C07)"],
@@ -261,7 +262,8 @@ CHECKS = {
  "C15": {
   "title": "Descriptions and annotations",
   "harnesses": [
-   {"pkg": "catalog", "fn": "VerifH_Annotation", "quick": {"N": 5}, "thorough": {"N": 7}},
+   {"pkg": "catalog", "fn": "VerifH_Annotation", "quick": {"N": 5, "INTERIOR": 0}, "thorough": {"N": 7, "INTERIOR": 0}},
+   ANNOT_IN,
    {"pkg": "core", "fn": "VerifH_DescriptionNormal", "quick": {"N": 4, "ALPHA": 0}, "thorough": {"N": 5, "ALPHA": 0}},
    {"pkg": "core", "fn": "VerifH_DescriptionNormal", "quick": {"N": 5, "ALPHA": 1}, "thorough": {"N": 6, "ALPHA": 1}},
    {"pkg": "core", "fn": "VerifH_DescriptionParens", "quick": {"N": 6}, "thorough": {"N": 8}},
